@@ -226,7 +226,10 @@ Theorem ND_ships_action s n : NN s -> ND s ->
   (exists made, 0 <= made /\
      SF fOS (ships_action NW dis s n) n (customers (C n)) + SF fODI (ships_action NW dis s n) n (customers (C n)) - SF fODI s n (customers (C n))
        <= qmax 0 (gq s (fIL, n, Ext)) + made /\
-     gq (ships_action NW dis s n) (fIL, n, Ext) == gq s (fIL, n, Ext) + made - SF fPIO s n (customers (C n))).
+     gq (ships_action NW dis s n) (fIL, n, Ext) == gq s (fIL, n, Ext) + made - SF fPIO s n (customers (C n))) /\
+  (* nothing is left pending at n, and the other nodes' order books are untouched *)
+  SF fPIO (ships_action NW dis s n) n (customers (C n)) == 0 /\
+  (forall f n' c, n' <> n -> (f = fBO \/ f = fODI \/ f = fPIO) -> gq (ships_action NW dis s n) (f, n', c) = gq s (f, n', c)).
 Proof.
   intros HN HD. unfold ships_action.
   set (il0 := gq s (fIL, n, Ext)).
@@ -282,9 +285,14 @@ Proof.
         rewrite qsumf_ext with (g := fun c => gq s (fODI, m, c)) (g' := fun c => gq s4 (fODI, m, c)).
         2:{ intros x _. rewrite In1 by (try exact NE; tauto). rewrite E3; [reflexivity|unfold NF; tauto|discriminate]. }
         rewrite !In2 by (try exact NE; tauto). rewrite !E3 by (try (unfold NF; tauto); discriminate). apply D3.
-  - exists made. split; [exact Hm|]. split.
-    + rewrite GOS. rewrite (SF_same fODI s4 (fill_rate s4 n)) by (try exact SFR; unfold NF; tauto). lra.
-    + rewrite (SFR fIL n Ext) by (unfold NF; tauto). rewrite Iil. lra.
+  - split; [|split].
+    + exists made. split; [exact Hm|]. split.
+      * rewrite GOS. rewrite (SF_same fODI s4 (fill_rate s4 n)) by (try exact SFR; unfold NF; tauto). lra.
+      * rewrite (SFR fIL n Ext) by (unfold NF; tauto). rewrite Iil. lra.
+    + rewrite (SF_same fPIO s4 (fill_rate s4 n)) by (try exact SFR; unfold NF; tauto). exact Ipio.
+    + intros f n' c Hne Hf. assert (HNF : NF f) by (unfold NF; tauto).
+      rewrite (SFR f n' c HNF). rewrite In1 by (try exact Hne; tauto). apply E3; [exact HNF|].
+      intro E. inversion E; subst. destruct Hf as [X|[X|X]]; discriminate.
 Qed.
 
 Lemma ND_next_period s : ND s -> ND (next_period NW dis s).
@@ -297,5 +305,5 @@ Proof. intros Hd HN HD. unfold run_actions.
   { unfold s1. apply (fold_left_inv (fun a => NN a /\ ND a)); [|split; assumption].
     intros a x _ [Na Da]. split; [apply NN_orders_action; assumption|apply ND_orders_action; exact Da]. }
   apply (fold_left_inv (fun a => NN a /\ ND a)); [|exact H1].
-  intros a x _ [Na Da]. split; [apply NN_ships_action; assumption|apply ND_ships_action; assumption]. Qed.
+  intros a x _ [Na Da]. split; [apply NN_ships_action; assumption|apply (proj1 (ND_ships_action a x Na Da))]. Qed.
 End NodeInv.
